@@ -5,6 +5,22 @@ os.chdir(os.path.dirname(os.path.abspath(__file__)) + "/..")
 
 # id -> (technique, level text, level note, design_ref); only built checks are listed here
 CHECKS = {
+ "C13": ("exhaustive enumeration (payload IDs) + proptest vs. reference (de)serialisers",
+         "All 2^32 payload-ID buffers are parsed and re-serialised against the RFC 3.2 layout (exhaustive); packets and the 12-byte transmission information are checked on generated buffers/values (field-boundary biased) against reference (de)serialisers written from RFC 3.3.2/3.3.3, both directions.",
+         "Reference layouts written from the RFC text; OTI and packet sub-checks are sampled, not exhaustive.",
+         "DESIGN.md 5/C13"),
+ "C14": ("proptest with constructed in-domain cases vs. u128 reference derivation; metamorphic monotonicity; round trip",
+         "Generated (F, P', WS) constructed at and around every boundary of the RFC 4.3 derivation (budget exactly admitting K' with n sub-blocks, quotients around 2^32, KL(n) undefined for small n) compared with an independent u128 derivation; monotonicity in WS; EncoderBuilder/Decoder round trips. Found and drove the repair of two panics inside the domain.",
+         "Al = SS = 8 (P' >= 64) or 1 is taken as the library's fixed choice; search is sampled (3e5 quick / 2e7 thorough cases).",
+         "DESIGN.md 5/C14"),
+ "C15": ("exhaustive enumeration over K; stratified + boundary-solved (quick) / exhaustive (thorough) enumeration of (K', X) vs. reference Tuple, in release and overflow-checking builds",
+         "Parameters are checked for every K (exhaustive). Tuples: the thorough tier enumerates all 8.0e9 (K', X) pairs in both build profiles; the quick tier covers 1.65e8 pairs per profile including inputs solved to sit on the 2^32 carry boundary of Rand (which uniform sampling cannot reach). Found and drove the repair of an overflow panic.",
+         "Trusts V0..V3 / Table 2 as pinned; reference Tuple/Rand/Deg written from the RFC.",
+         "DESIGN.md 5/C15"),
+ "C19": ("proptest with limit-adjacent construction vs. u128 reference predicate",
+         "Generated parameter sets built adjacent to every documented limit (and with ceil(F/T) beyond 2^32) are judged by a u128 reference predicate; accept/refuse must agree both ways and accepted values must be echoed. Found and drove the repair of an acceptance beyond the limit.",
+         "Sampled search (2e6 quick / 2e8 thorough); domain restricted to positive T, Z, Al as the property states.",
+         "DESIGN.md 5/C19"),
  "C10": ("exhaustive enumeration vs. polynomial reference",
          "Exhaustive: all 256^2 pairs and 256^3 triples of the octet operators and all derived tables are compared with carry-less multiplication modulo 0x11D; the finite domain is covered completely, so this is as strong as testing gets for this property.",
          "Trusts the 20-line shift-and-reduce reference multiplier (unit-tested: generator order, inverses).",
